@@ -16,6 +16,24 @@ type genMod struct {
 	initFile, initRecv     string
 }
 
+// which accounts the EVM export walks: the type the iteration callback asserts (an interface every account kind with a
+// code hash implements, or one concrete kind)
+func init() { moreFacts = append(moreFacts, factsEvmExportAccounts) }
+
+func factsEvmExportAccounts() {
+	v := "unrecognised"
+	if fd := funcDecl("x/evm/genesis.go", "", "ExportGenesis"); fd != nil {
+		ast.Inspect(fd.Body, func(n ast.Node) bool {
+			ta, ok := n.(*ast.TypeAssertExpr)
+			if ok && exprName(ta.X) == "account" && ta.Type != nil {
+				v = strings.Join(strings.Fields(src(ta.Type)), "")
+			}
+			return true
+		})
+	}
+	emitStr("evmExportAccountAssertion", v, "x/evm ExportGenesis: the type asserted on each account of the auth keeper's iteration (accounts failing it are skipped)")
+}
+
 func factsGenesis() {
 	mods := []genMod{
 		{"coinomics", "x/coinomics/types/genesis.pb.go", "x/coinomics/genesis.go", "", "x/coinomics/genesis.go", ""},
